@@ -342,10 +342,44 @@ def run(ctx):
         ok = len(bl) == 1 and bl[0][1] == "Number" and bl[0][2] and bl[0][2][0][0] == "field" and bl[0][2][0][2] == "Some" and bl[0][2][0][1][0] == "call" \
             and call_name(v, bl[0][2][0][1]) == "serde_json::Number::from_f64" and payload_of(bl[0][2][0][1][3][0], "Float")
         if not ok:
+            # other formulations: `Number::from_f64(f).map(JValue::Number).ok_or_else(..)`, a `match` on it, ...
+            farm = arms.get("Float", set())
+            f64s = [x for x in farm if v.callee(x) is not None and v.callee(x).fn is not None and v.callee(x).path == "serde_json::Number::from_f64"
+                    and payload_of(canon(v, v.origin(v.blocks[x]["term"]["args"][0])), "Float")]
+            nums_ok = True
+            for bl_ in bl:
+                if bl_[1] == "Number" and bl_[2]:
+                    for a_ in v.alts(bl_[2][0]):
+                        a_ = canon(v, a_)
+                        if not (a_[0] == "field" and a_[2] == "Some" and a_[1][0] == "call" and a_[1][1] in f64s):
+                            nums_ok = False
+                elif bl_[1] not in ("Number", "Null"):
+                    nums_ok = False
+            via_map = any(v.callee(x) is not None and v.callee(x).fn is not None and v.callee(x).base() == "std::option::Option::map" and
+                          term_mentions(canon(v, v.origin_call(x)), lambda y: y[0] == "call" and y[1] in f64s) and
+                          term_mentions(canon(v, v.origin_call(x)), lambda y: y[0] == "fnconst" and y[1].endswith("Value::Number")) for x in farm)
+            ok = bool(f64s) and nums_ok and (any(b_[1] == "Number" for b_ in bl) or via_map)
+        if not ok:
             fs.append(fnd("C13.TABLE", v, "Deserr for serde_json::Value does not build floats as Number::from_f64(the same float)"))
         # TOTAL: the only report that is not a hand-over is on the from_f64 == None edge
         own = [s for s in bs.sites if s.kind == "error"]
         okt = len(own) == 1 and own[0].ek == "Unexpected" and own[0].bb in arms.get("Float", set())
+        if not own:
+            # the report may sit in a closure (`.ok_or_else(|| ..)`): every closure of this function that reports is created on the Float arm
+            clo_sites = []
+            for cb in crate.bodies:
+                if cb.kind == "Closure" and cb.root == v.b.root:
+                    cbs_ = BodySites(View(cb))
+                    if any(s.kind == "error" for s in cbs_.sites):
+                        clo_sites.append(cb.path)
+            created = {}
+            for x in v.reach:
+                for st_ in v.blocks[x]["stmts"]:
+                    if st_["k"] == "assign" and st_["rv"]["k"] == "agg" and st_["rv"].get("ak") == "closure":
+                        created[st_["rv"].get("path")] = x
+            if all(p_ in created and created[p_] in arms.get("Float", set()) for p_ in clo_sites):
+                fs_total_ok = True
+                okt = None     # decided: nothing outside the float arm can fail
         if okt:
             f64 = [x for x in arms["Float"] if v.callee(x) is not None and v.callee(x).fn is not None and v.callee(x).path == "serde_json::Number::from_f64"]
             if f64:
@@ -354,7 +388,7 @@ def run(ctx):
                 okt = nt is not None and v.dominates(nt, own[0].bb)
             else:
                 okt = False
-        if not okt:
+        if okt is not None and not okt:
             fs.append(fnd("C13.TOTAL", v, "Deserr for serde_json::Value can fail on its own for something other than a non-finite float (%s)" % [(s.ek) for s in own]))
         # REC: containers (C06 rules on the same body)
         f6, o6 = coll.c_jvalue(v, bs)
